@@ -13,7 +13,9 @@
 EXTENDS TL2Syntax
 
 CONSTANTS Mode, MaxToks, TokSel, PruneToks, EmitEvery,
-          MaxW, MaxCombs, MutW, LayoutSel
+          MaxW, MaxCombs, MutW, LayoutSel,
+          Focus        \* TRUE (mode derive): the initial states are the complete derivations of NumFocus (a number in
+                       \* every position that takes one); with MaxW = 0 only Layout and Mutate act on them
 
 VARIABLE st
 
@@ -84,8 +86,30 @@ ASSUME LayoutSel \subseteq 1..Len(Layouts2)
 NoDef  == [al |-> FALSE, t |-> <<>>, un |-> FALSE, fs |-> <<>>, vs |-> <<>>]
 NoComb2 == [an |-> <<>>, ns |-> "", nm |-> "", mg |-> "", fn |-> FALSE, ta |-> <<>>, def |-> <<>>, args |-> <<>>, ret |-> <<>>, cb |-> <<>>]
 
+(* a number in every position of the grammar that takes one: generic argument (alone, after a type, nested, *)
+(* inside an index), array size (outer, nested), in aliases, function arguments and results, union variants *)
+IntT == T2("", "int", <<>>)
+X(t) == F2("x", FALSE, FALSE, t, <<>>, "")
+Three == A2N(N(3))
+Struct2(fs) == [NoComb2 EXCEPT !.nm = "a", !.def = <<DefStruct(fs)>>]
+NumFocus ==
+  { Struct2(<<X(T2("", "int", <<Three>>))>>),
+    Struct2(<<X(T2("", "int", <<A2T(IntT), Three>>))>>),
+    Struct2(<<X(T2("", "int", <<A2T(T2("ns", "V", <<Three>>))>>))>>),
+    Struct2(<<X(Br2(<<Three>>, IntT))>>),
+    Struct2(<<X(Br2(<<Three>>, Br2(<<Three>>, IntT)))>>),
+    Struct2(<<X(Br2(<<A2T(T2("", "int", <<Three>>))>>, IntT))>>),
+    Struct2(<<X(Br2(<<>>, T2("", "int", <<Three>>)))>>),
+    [NoComb2 EXCEPT !.nm = "a", !.mg = "1234abcd", !.def = <<DefAlias(Br2(<<Three>>, IntT))>>],
+    [NoComb2 EXCEPT !.nm = "a", !.def = <<DefAlias(T2("", "int", <<Three>>))>>],
+    [NoComb2 EXCEPT !.nm = "a", !.def = <<DefUnion(<<VarAlias("A", T2("", "int", <<Three>>), <<>>), VarFields("b", <<X(Br2(<<Three>>, IntT))>>, <<>>)>>)>>],
+    [NoComb2 EXCEPT !.nm = "a", !.fn = TRUE, !.mg = "0000beef", !.args = <<X(Br2(<<Three>>, IntT))>>,
+                    !.ret = <<[NoDef EXCEPT !.fs = <<F2("", FALSE, FALSE, T2("", "int", <<Three>>), <<>>, "")>>]>>],
+    [NoComb2 EXCEPT !.nm = "a", !.fn = TRUE, !.mg = "ffffffff", !.ret = <<DefAlias(Br2(<<Three>>, IntT))>>] }
+
 Init == CASE Mode = "tok"    -> st = [ph |-> "tok", sig |-> <<>>]
-          [] Mode = "derive" -> st = [ph |-> "start", done |-> <<>>, cur |-> NoComb2, w |-> 0, str |-> FALSE]
+          [] Mode = "derive" /\ Focus -> st \in {[ph |-> "idle", done |-> <<c>>, cur |-> NoComb2, w |-> 0, str |-> TRUE] : c \in NumFocus}
+          [] Mode = "derive" /\ ~Focus -> st = [ph |-> "start", done |-> <<>>, cur |-> NoComb2, w |-> 0, str |-> FALSE]
 
 AppendTok == /\ st.ph = "tok" /\ Len(st.sig) < MaxToks
              /\ \E t \in Alphabet :
@@ -180,7 +204,7 @@ Stretch == /\ st.ph = "idle" /\ ~st.str /\ Left >= 1
 
 Layout == /\ st.ph = "idle"
           /\ \E l \in LayoutSel : st' = [ph |-> "laid", done |-> st.done, w |-> st.w, l |-> l]
-Mutate == /\ st.ph = "idle" /\ st.w < MutW /\ ~st.str
+Mutate == /\ st.ph = "idle" /\ st.w < MutW /\ (Focus \/ ~st.str)
           /\ LET s == SelectSeq(File2Toks(st.done, Layouts2[1]), LAMBDA t : ~Fixed2(t)) IN
              \/ \E i \in 1..Len(s) : st' = [ph |-> "mut", how |-> "delete", sig |-> MutDelete(s, i)]
              \/ \E i \in 1..Len(s) : st' = [ph |-> "mut", how |-> "dup", sig |-> MutDup(s, i)]
